@@ -40,7 +40,8 @@ def write(prop, tier, seed, agg, wall, violations, known, inconclusive, jobs, fi
         "finam_src": boot.finam_src(),
         "repo_head": boot.repo_head(),
     }
-    path = os.path.join(boot.VERIF, "evidence", f"{prop.id}.json")
+    # break-validation runs against scratch copies (VERIF_FINAM_SRC) write elsewhere
+    path = os.path.join(os.environ.get("VERIF_EVIDENCE_DIR") or os.path.join(boot.VERIF, "evidence"), f"{prop.id}.json")
     os.makedirs(os.path.dirname(path), exist_ok=True)
     try:
         import jsonschema  # pylint: disable=import-outside-toplevel
